@@ -7,6 +7,7 @@ mod props;
 mod rogue;
 mod runner;
 mod storemodel;
+mod keystore;
 mod world;
 
 fn main() {
